@@ -53,3 +53,31 @@ package server
 //@ loop 3 step [C14] D.$unsubs == at(iter3, D.$unsubs) || D.$unsubs == at(iter3, D.$unsubs) + 1
 // the peers / plugins are told about a removal only when it happened
 //@ call Hooks.OnUnsubscribed#1 assert [C14] D.$unsubs == at(iter3, D.$unsubs) + 1 && topicName == D.$lastUnsubTopic
+
+// C19 — reAuthHandler (re-authentication of an established connection, MQTT 5 4.12.1): the OnReAuth verdict is
+// enforced. Without a hook re-authentication is a protocol error; a hook error is returned to the caller (which closes
+// the connection with it) and no AUTH packet is written; otherwise one AUTH packet goes out, with reason 0x18
+// (continue) iff the hook asked to continue and 0 (success) otherwise, carrying the connection's method and the hook's data.
+// (Without a hook the value returned is the package variable codes.ErrProtocol; package variables are outside the
+// contract language, so only "nothing is written, the hook counter does not move" is stated for that case.)
+// OnReAuth: plugin code; a verdict without an error comes with a response (hook.go).
+//@ ghost field (Hooks).reauth int
+//@ ghost field (Hooks).reauthErr error
+//@ ghost field (Hooks).reauthResp *AuthResponse
+//@ func field (Hooks).OnReAuth
+//@ params self, ctx, cli, auth
+//@ modifies ghost(self.$reauth), ghost(self.$reauthErr), ghost(self.$reauthResp)
+//@ ensures self.$reauth == old(self.$reauth) + 1 && self.$reauthErr == result1 && self.$reauthResp == result0 && failing(result1)
+//@ ensures noErr(result1) ==> result0 != nil
+
+//@ func (*client).reAuthHandler
+//@ props C19
+//@ let H = client.server.hooks
+//@ requires [C19] client != nil && client.server != nil && client.opts != nil
+//@ modifies ghost(H.$reauth), ghost(H.$reauthErr), ghost(H.$reauthResp), ghost(client.$nout), ghost(client.$lastOut)
+//@ ensures [C19] old(H.OnReAuth) == nil ==> client.$nout == old(client.$nout) && H.$reauth == old(H.$reauth)
+//@ ensures [C19] old(H.OnReAuth) != nil ==> H.$reauth == old(H.$reauth) + 1
+//@ ensures [C19] old(H.OnReAuth) != nil && !noErr(H.$reauthErr) ==> result != nil && client.$nout == old(client.$nout)
+//@ ensures [C19] old(H.OnReAuth) != nil && noErr(H.$reauthErr) ==> result == nil
+//@ call client.write#1 assert [C19] old(H.OnReAuth) != nil && noErr(H.$reauthErr) && packets.(type *packets.Auth)
+//@ call client.write#1 assert [C19] packets.(*packets.Auth).Code == (H.$reauthResp.Continue ? 24 : 0) && packets.(*packets.Auth).Properties != nil && packets.(*packets.Auth).Properties.AuthMethod == client.opts.AuthMethod && packets.(*packets.Auth).Properties.AuthData == H.$reauthResp.AuthData
